@@ -679,6 +679,68 @@ func c05SeqCase(op msOp, words [][]h.Ev, as []arrival) fw.Case {
 	}}
 }
 
+// c05ReentrantCase: the arrival order as, pushed from one goroutine, but arrival #at+1 is issued from INSIDE the
+// observer callback of the first notification the operator delivers while it processes arrival #at (a feedback
+// loop: the consumer reacts to an output by feeding a source). The arrival order is still as, so the
+// definition's output for as is expected. Operators whose destination is locked while it is being called
+// cannot be re-entered (the nested push blocks on that lock): such runs, and runs where arrival #at delivers
+// nothing, decide nothing and are skipped.
+func c05ReentrantCase(op msOp, as []arrival, at int) fw.Case {
+	return fw.Case{Name: fmt.Sprintf("reentrant@%d:%s", at, arrString(as)), Opts: vrt.Options{Horizon: 50000}, Make: func() fw.Instance {
+		set := &recSet{}
+		out := h.NewRec("out")
+		set.add(out)
+		var escaped string
+		nested := false
+		body := func() {
+			srcs := make([]*h.Src, op.k)
+			obs := make([]ro.Observable[int], op.k)
+			push := make([]*h.Push[int], op.k)
+			for i := range obs {
+				srcs[i] = h.NewSrc(fmt.Sprintf("%c", 'a'+i))
+				obs[i], push[i] = h.Pushed[int](srcs[i], h.Unsafe)
+			}
+			curLate = nil
+			vrt.GoNamed("subscribe", func() {
+				guard(&escaped, "Subscribe", func() { op.build(obs, set, out) })
+			})
+			vrt.Settle()
+			armed := false
+			out.Hook = func(r *h.Rec, idx int, e h.Ev) {
+				if armed && !nested {
+					nested = true
+					push[as[at+1].src].Emit(as[at+1].e)
+				}
+			}
+			guard(&escaped, "Next", func() {
+				for i := 0; i < len(as); i++ {
+					if i == at+1 && nested {
+						continue
+					}
+					armed = i == at
+					push[as[i].src].Emit(as[i].e)
+					armed = false
+					vrt.Settle()
+				}
+			})
+		}
+		return fw.Instance{Body: body, Outcome: func() string { return implOutcome(set) }, Check: func(r *vrt.Result) []fw.Violation {
+			if !nested || len(r.Blocked) > 0 || r.HorizonHit {
+				return nil
+			}
+			where := fmt.Sprintf("%s, arrival order [%s] with arrival #%d issued from inside the callback of the output of arrival #%d", op.name, arrString(as), at+1, at)
+			if escaped != "" {
+				return []fw.Violation{fw.V("reentrant/"+op.name+"/panic/escaped", where+": "+escaped)}
+			}
+			m := runModel(op, as)
+			if !sameOutcome(set, m) {
+				return []fw.Violation{fw.V("reentrant/"+op.name+"/output-vs-definition/"+outcomeClass(set, m), fmt.Sprintf("%s: delivered [%s]; the definition gives [%s]", where, implOutcome(set), modelOutcome(m)))}
+			}
+			return nil
+		}}
+	}}
+}
+
 func sameOutcome(set *recSet, m *msModel) bool {
 	recs := set.all()
 	if len(recs) != 1+len(m.inner) {
@@ -974,6 +1036,13 @@ func init() {
 					for _, words := range chunk {
 						for _, as := range shuffles(words) {
 							c.Explore(c05SeqCase(op, words, as))
+							if !op.late && op.k >= 2 {
+								for at := 0; at+1 < len(as); at++ {
+									if as[at].src != as[at+1].src {
+										c.Explore(c05ReentrantCase(op, as, at))
+									}
+								}
+							}
 						}
 					}
 				}})
